@@ -146,3 +146,21 @@ func (s *Stats) Merge(o *Stats) {
 		}
 	}
 }
+
+// appendEmitter continues existing op/exp files (children of an isolated stream append to the parent's files).
+func appendEmitter(opsPath, expPath string) *Emitter {
+	fo, err := os.OpenFile(opsPath, os.O_APPEND|os.O_WRONLY|os.O_CREATE, 0o644)
+	if err != nil {
+		panic(err)
+	}
+	fe, err := os.OpenFile(expPath, os.O_APPEND|os.O_WRONLY|os.O_CREATE, 0o644)
+	if err != nil {
+		panic(err)
+	}
+	return &Emitter{ops: bufio.NewWriter(fo), exp: bufio.NewWriter(fe), fo: fo, fe: fe}
+}
+
+func (e *Emitter) Flush() {
+	e.ops.Flush()
+	e.exp.Flush()
+}
